@@ -710,7 +710,8 @@ def refusal_cases(ctx, cases):
     D = cuqi.distribution
     specs = {"JointGaussianSqrtPrec": lambda: D.JointGaussianSqrtPrec([np.zeros(2), np.zeros(2)], [np.eye(2), 2 * np.eye(2)]),
              "UserDefined(no sample_func)": lambda: D.UserDefinedDistribution(dim=2, logpdf_func=lambda x: -0.5 * np.sum(x ** 2)),
-             "Gallery(donut)": lambda: D.DistributionGallery("donut"), "Gallery(banana)": lambda: D.DistributionGallery("banana")}
+             "Gallery(donut)": lambda: D.DistributionGallery("donut"), "Gallery(banana)": lambda: D.DistributionGallery("banana"),
+             "SmoothedLaplace": lambda: D.SmoothedLaplace(np.zeros(2), 1.0, 0.25)}     # _sample raises NotImplementedError: no transformation to model
     for name, mk in specs.items():
         for N in (1, 3):
             try:
